@@ -10,7 +10,7 @@ use chess::alpha_beta_searcher::{alpha_beta_search, SearchContext};
 use chess::board::Board;
 use chess::chess_move::algebraic_notation::enumerate_candidate_moves_with_algebraic_notation;
 use chess::chess_move::chess_move::ChessMove;
-use chess::evaluate::{game_ending, player_is_in_check, GameEnding};
+use chess::evaluate::{game_ending, player_is_in_check, player_is_in_checkmate, GameEnding};
 use chess::move_generator::MoveGenerator;
 
 use crate::eng::*;
@@ -260,6 +260,13 @@ pub fn gen_plan(property: &str, seed: u64, index: u64, tier: Tier) -> Plan {
     } else {
         scenario = "random-history";
         let mut policy = *rng.pick(&cfg.policies);
+        let c06_late = property == "C06" && mix(seed, index, 0x4c41) % 10 == 0;
+        if c06_late {
+            // verdicts and annotations do not depend on the clocks: a long quiet stretch first
+            cfg.max_plies = 150;
+            cfg.min_len = 160;
+            cfg.max_len = 220;
+        }
         if property == "C04" && index % 7 == 5 {
             // deep stacks: a long game without the expensive bracket calls, then a complete unwind
             cfg.weights = [90, 3, 0, 0, 0, 0, 0, 0, 0];
@@ -279,7 +286,15 @@ pub fn gen_plan(property: &str, seed: u64, index: u64, tier: Tier) -> Plan {
         let mut own_stack: Vec<(usize, Option<Mv>)> = Vec::new();
         while ops.len() < len {
             let pos = stack.last().unwrap().clone();
-            let choice = weighted(&mut rng, &cfg.weights);
+            let mut choice = weighted(&mut rng, &cfg.weights);
+            if c06_late {
+                if stack.len() <= 101 {
+                    choice = 0;
+                    policy = Policy::Frozen;
+                } else {
+                    policy = Policy::Hunt;
+                }
+            }
             match choice {
                 0 => {
                     if stack.len() > cfg.max_plies {
@@ -929,6 +944,21 @@ pub fn exec(plan: &Plan) -> Outcome {
                             format!("{}: player_is_in_check({:?}) = {}, model {}", view.to_fen(), side, chk, want_chk),
                         ));
                         break;
+                    }
+                    {
+                        let mate = player_is_in_checkmate(&mut board, &mut gen, color(side));
+                        let want_mate = verdict(&view) == Verdict::Checkmate;
+                        evals += 1;
+                        if view.half >= 100 {
+                            stats.bump("probe/verdict-with-halfmove-100-or-more");
+                        }
+                        if mate != want_mate {
+                            bad = Some((
+                                format!("C06/checkmate-verdict/{}", if want_mate { "mate-not-reported" } else { "mate-reported-wrongly" }),
+                                format!("{} (plies since capture or pawn move: {}): player_is_in_checkmate({:?}) = {}, model {}", view.to_fen(), view.half, side, mate, want_mate),
+                            ));
+                            break;
+                        }
                     }
                     if view.half < 100 && !plan.register {
                         let e = game_ending(&mut board, &mut gen, color(side));
